@@ -165,8 +165,14 @@ func (o *Obs) coq() string {
 	case "ok":
 		return "OOk"
 	case "err":
+		if !whitebox {
+			return lib.CoqApp("OErrB", o.P.coq())
+		}
 		return lib.CoqApp("OErr", o.P.coq())
 	case "item":
+		if !whitebox {
+			return lib.CoqApp("OItemB", o.P.coq())
+		}
 		return lib.CoqApp("OItem", o.P.coq())
 	case "panic":
 		return "OPanic"
